@@ -5,6 +5,7 @@ from . import worker as W
 from . import net as NET
 from . import xfer as X
 from . import interop as IO
+from . import extras as EX
 import random, re, shutil, time
 
 
@@ -72,7 +73,12 @@ def c04(res):
     file_scenario_deviations(res, events, "c04-two-losses", "two consecutive lost acknowledgements are not survived by retransmission")
 
 
+def c08_extras(res):
+    res.extra["unbounded_inductive_invariant"] = EX.sender_inductive()
+
+
 def c08(res):
+    c08_extras(res)
     worker_families(res, ["MC_SendCoreQuick", "MC_RecvCoreQuick", "MC_SendBigWShort", "MC_RecvBigW"],
                     ["MC_SendCoreFull", "MC_RecvCoreFull", "MC_SendBigWShort", "MC_RecvBigW", "MC_SendBigWFull"])
 
@@ -87,6 +93,7 @@ def c13(res):
 
 
 def c15(res):
+    res.extra["unbounded_wrap_lemma"] = EX.wrap_lemma()
     W.model_check(res, "MC_SendWrapSmall")
     W.model_check(res, "MC_RecvWrapSmall")
     worker_families(res, ["MC_SendWrapReal", "MC_RecvWrapReal"],
